@@ -54,13 +54,20 @@ def w_gen_cpp(case):
     sd = fcp.to_dict()
     out = _t.mkdtemp(prefix="fcpcpp_")
     try:
-        files = _plugin_generator(fcp_cpp).generate(fcp, {"output": out})
+        # generated twice from the one parsed schema (a build that produces headers for two targets): what is compiled and
+        # run is the SECOND generation, and it must be the first one again
+        g = _plugin_generator(fcp_cpp)
+        first = {os.path.basename(str(f["path"])): str(f["contents"]) for f in g.generate(fcp, {"output": out})}
+        files = g.generate(fcp, {"output": out})
         gen_files = {os.path.basename(str(f["path"])): str(f["contents"]) for f in files}
     finally:
         shutil.rmtree(out, ignore_errors=True)
+    from .genmgr import strip_stamp
+    regen_same = {k: strip_stamp(v) for k, v in first.items()} == {k: strip_stamp(v) for k, v in gen_files.items()}
+    untouched = fcp.to_dict() == sd
     fcp2 = get_fcp_from_string(case["text"], Logger({})).unwrap()
     refl = list(serde.encode(get_reflection_schema().unwrap(), "Fcp", fcp2.reflection()))
-    return {"files": gen_files, "reflection": refl, "schema": sd}
+    return {"files": gen_files, "reflection": refl, "schema": sd, "regen_same": regen_same, "schema_untouched": untouched}
 
 
 def w_type_names(case):
@@ -218,6 +225,10 @@ def gen_batch(rng, nstructs=14, can=False, granular_share=0.0, big=False):
         d.structs.append(("SN", [("a", 1, ("dyn", ("arr", ("enum", "N0"), 2))), ("b", 0, ("opt", ("arr", ("enum", "N0"), 2))),
                                  ("c", 2, ("u", 8))]))
     d.extra = "\n".join(extra) + "\n"
+    if not can and len(d.structs) >= 2 and rng.random() < 0.5:
+        # services: the C++ generator derives rpc wrapper structs and id enums from them
+        a, b = d.structs[0][0], d.structs[-1][0]
+        d.extra += f"service Svc @ 1 {{\n    method ping({a}) @ 0 returns {b},\n    method pong({b}) @ 1 returns {a},\n}}\n"
     if rng.random() < 0.6:
         # texts outside ASCII in the schema itself (a unit, a binding's extension value): they travel through the reflection
         # record, so the run-time codec must still find every declaration behind them
@@ -384,6 +395,14 @@ def run_core(rep, prop, tier, rng):
                                "what": "the generated C++ does not compile as C++17 (or generation raised)"})
                 continue
             rep.hist("outcome", "compiled")
+            if not gens[k]["ok"].get("regen_same", True) or not gens[k]["ok"].get("schema_untouched", True):
+                rep.cov["disagreements_checked"] += 1
+                rep.violation({"kind": "regeneration", "schema": text,
+                               "regenerated_identical": gens[k]["ok"].get("regen_same"),
+                               "parsed_schema_untouched": gens[k]["ok"].get("schema_untouched"),
+                               "what": "generating the C++ a second time from the same parsed schema gives other headers than the "
+                                       "first time, or generation modified the caller's schema"})
+                continue
             results[k] = exercise(rep, prop, rng, d, gens[k]["ok"], b, nv, tier, fixed=fixed_jobs.get(k),
                                   twin_of=(descs[k - len(descs) // 2], results.get(k - len(descs) // 2))
                                   if prop == "C15" and k >= len(descs) // 2 else None)
